@@ -2,6 +2,7 @@
 from __future__ import annotations
 
 from .core import outcome, octs, after_pack, rxbuf, decoded, scramble, owned, enum_arg
+from .probe import fresh
 from .probe import decode_other
 
 
@@ -51,7 +52,7 @@ def op_hdr_rt(a):
         raw = owned(o.pack)
 
         def rest():
-            d = _hdr_cls(h["trunc"]).unpack(rxbuf(raw, a["sfx"]))
+            d = fresh(lambda: _hdr_cls(h["trunc"]).unpack(rxbuf(raw, a["sfx"])))
             decode_other(f"uslp.hdr:{int(bool(h['trunc']))}", _hdr_cls(h["trunc"]).unpack)
             return {"octets": octs(raw), "len": o.len(), "dec": proj_hdr(d), "dlen": d.len(), "repack": octs(d.pack()),
                     "htype": int(determine_header_type(bytes(raw)) == HeaderType.TRUNCATED)}
@@ -61,7 +62,7 @@ def op_hdr_rt(a):
 
 def op_hdr_unpack(a):
     def run():
-        d = decoded(lambda: _hdr_cls(a["trunc"]).unpack(bytes(a["octets"])))
+        d = decoded(lambda: fresh(lambda: _hdr_cls(a["trunc"]).unpack(bytes(a["octets"]))))
         return {"h": proj_hdr(d), "len": d.len(), "repack": octs(d.pack())}
     return outcome(run)
 
@@ -130,7 +131,7 @@ def op_frame_rt(a):
         n = fr.len()
 
         def rest():
-            d = TransferFrame.unpack(rxbuf(raw), _ftype(a["ftype"]), mk_props(matching(f, a["ftype"], len(raw))))
+            d = fresh(lambda: TransferFrame.unpack(rxbuf(raw), _ftype(a["ftype"]), mk_props(matching(f, a["ftype"], len(raw)))))
             scramble()          # the receive buffer is re-used: the decoded frame owns its zones
             return {"octets": octs(raw), "len": n, "flen": -1 if tr else int(fr.header.frame_len), "dec": proj_frame(d),
                     "dlen": d.len(), "repack": octs(d.pack(truncated=tr, frame_type=_ftype(a["ftype"])))}
